@@ -525,6 +525,8 @@ def fam_builtins():
         ("blt:int-shapes", '[int(als nee { 1 }), int(1.9), int(0.0 - 1.9), int("5"), int(" 5 "), int("-5")]'),
         ("blt:float-shapes", '[float(als nee { 1 }), float(ja), float(nee), float(3), float("1.5"), float(" 2 ")]'),
         ("blt:string-shapes", '[string(als nee { 1 }), string(12), string(0 - 7), string(1.5), string(2.0), string("x")]'),
+        ("blt:string-of-text-is-the-same-text", 'stel s = "abc"; stel t = string(s); t[0] = "x"; stel u = string(string(t)); u[1] = "y"; [s, t, u, s == t]'),
+        ("blt:own-type-conversions", 'stel f = 1.5; stel l = [f]; [float(f) == f, float(l[0]), int(7) == 7, int(0 - %s), bool(ja), bool(%s < %s), string(""), lengte(string("héé"))]' % (H0, H0, H1)),
         ("blt:roundtrip", "[int(string(%s)) , int(string(0 - %s))]" % ("123456789012345678", "1152921504606846975")),
     ]
     for b in ("type", "bool", "int", "float", "string", "lengte"):
@@ -549,6 +551,9 @@ def fam_builtins():
         ("blt:float-text-large", "stel g = 123456789.0 * 987654.321; [string(g), float(string(g)) == g, string(0.0 - g)]"),
         ("blt:float-text-small", "stel t = 1.0 / 3000000.0; [string(t), float(string(t)) == t]"),
         ("blt:float-print-17-digits", 'print(0.1 + 0.2); print("{} en {}", 1.0 / 3.0, 2.5); print([0.7 * 3.0, 1.1 * 1.1])'),
+        # whole-number floats beyond the 64-bit integers are spelled as a plain run of digits; digit-only text is float text too
+        ("blt:float-text-huge", 'stel g = 10000000000000000000.0; stel a = 1000000000000000000.0; stel b = a * a; stel c = b * b; stel d = c * c; stel h = d * d; [string(g), float(string(g)) == g, float(string(0.0 - g)) == 0.0 - g, float(string(h)) == h, lengte(string(h))]'),
+        ("blt:float-of-digit-text", '[float("12"), float("-7"), 1.0 / float("-0"), float("9223372036854775807"), float("9223372036854775808"), float("-9223372036854775809"), float("123456789012345678901234567890"), float("007")]'),
         ("blt:float-text-sum", 'stel s = 0.0; stel i = 0; zolang i < 10 { s = s + 0.1; i += 1; }; [string(s), s == 1.0, float(string(s)) == s]'),
     ]
     return out
@@ -936,6 +941,12 @@ def fam_gc():
         ("gc:float-arith-chain", pre + "stel x = 1.5; stel i = 0; zolang i < 3 { x = x * 2.0 + id(0.5); i += 1; }; noop(); [x, 1.5]"),
         ("gc:error-with-live-heap", pre + "stel a = [1.5, \"x\", [2.5]]; noop(); print(a); a[%s]" % H0),
         ("gc:error-inside-call-with-live-heap", pre + "functie bad(v) { stel t = [v, 3.5]; t[5] }; stel a = [1.5]; print(a); bad(a)"),
+        # a conversion of a heap value to its OWN type (string(text), float(float)) is the identity: no second object may
+        # appear that nobody releases - the results are not part of the program's result, on a normal end, on an error exit and
+        # across collections in a loop
+        ("gc:own-type-conversions-not-in-result", pre + 'stel s = "abc"; stel f = 1.5 + 1.0; stel t = string(s); stel g = float(f); noop(); stel u = string(t); stel h = float(g); 1'),
+        ("gc:own-type-conversion-then-error", pre + 'stel s = "abc"; stel t = string(s); stel g = float(2.5 + 1.0); print(t); t[%s]' % H0),
+        ("gc:own-type-conversion-in-loop", pre + 'functie conv(x) { stel y = string(x); stel z = float(0.5 + 1.0); lengte(y) }; stel i = 0; stel n = 0; zolang i < 3 { n = n + conv("tekst"); i += 1; }; n'),
         ("gc:builtin-results", pre + 'stel t = [string(12), type(1.5), float(3), string(2.5)]; noop(); stel u = [string(7)]; [t, u]'),
         # collections at a return INTO ANOTHER FUNCTION (call depth >= 2): a fresh heap value that is reachable only through an
         # array that is older than the inner call
